@@ -1,6 +1,7 @@
 import NurbsVerif.Model.Eval
 import NurbsVerif.Lemmas.Deriv
 import NurbsVerif.Lemmas.Small
+import NurbsVerif.Lemmas.DerivAll
 
 /-!
 # C02  Derivatives returned are the true derivatives of the shape  (statements so far)
@@ -8,6 +9,33 @@ import NurbsVerif.Lemmas.Small
 namespace C02
 open Geomdl Blossom Polynomial
 variable {K : Type} [Field K]
+
+section ordered
+variable {F : Type} [Field F] [LinearOrder F] [IsStrictOrderedRing F]
+
+/-- **Curve derivatives of every order are the true derivatives.**  Entry `k` of the model of
+    `Curve.derivatives(u, order)` (A3.3 control points + A3.4 evaluation; the default A3.2/A2.3
+    evaluator and the alternative one are both tied to this model by the exact correspondence) equals
+    the `k`-th derivative (Mathlib's `Polynomial.derivative`, iterated) of the span polynomial –
+    the polynomial the curve coincides with on the half-open span, so at a knot this is the derivative
+    from the right – evaluated at `u`; for `k` above the degree both sides are zero.  Every degree,
+    sorted knot vector, non-empty span, parameter, dimension, requested order. -/
+theorem curve_derivatives_are_true_derivatives (p : ℕ) (U : ℕ → F) (P : List (List F)) (κ : ℕ) (u : F)
+    (d j order k : ℕ) (hp : p ≤ κ) (hκ : κ < P.length) (hP : NetOk d P)
+    (hm : Monotone U) (hspan : U κ < U (κ+1)) (hk : k ≤ order) :
+    ((curveDersAt p U P κ u order).getD k []).getD j 0 = eval u (derivative^[k] (spanPoly p U P κ j)) :=
+  curveDersAt_all p U P κ u d j order k hp hκ hP hm hspan hk
+
+/-- … and the span polynomial evaluates to the curve point (order 0 ties C02 to C01). -/
+theorem span_polynomial_is_the_curve (p : ℕ) (U : ℕ → F) (P : List (List F)) (κ : ℕ) (u : F) (d j : ℕ)
+    (hp : p ≤ κ) (hκ : κ < P.length) (hP : NetOk d P) :
+    (curvePointAt p U P κ u).getD j 0 = eval u (spanPoly p U P κ j) := by
+  rw [curvePointAt_wsum p U P κ u d j hp hκ hP, diag U κ u p hp]
+  unfold spanPoly
+  rw [eval_polP]
+  simp only [eval_C]
+
+end ordered
 
 /-- A3.3/A3.4 for the first derivative: the derivative of the span polynomial (de Boor scheme with
     the indeterminate as parameter) evaluated at `u` is `p` times the degree `p-1` evaluation of the
